@@ -70,7 +70,7 @@ func main() {
 		shards = e.ShardsThorough
 	}
 	if shards > 1 && replay == "" {
-		os.Exit(runSharded(run, e.ID, tier, shards))
+		os.Exit(runSharded(run, e, tier, shards))
 	}
 	func() {
 		defer func() {
@@ -94,13 +94,20 @@ func usage() {
 }
 
 // runSharded runs the check in n worker processes and merges what they found.
-func runSharded(run *ev.Run, id, tier string, n int) int {
+func runSharded(run *ev.Run, e drivers.Entry, tier string, n int) int {
+	id := e.ID
 	dir, err := os.MkdirTemp("", "verif-shards-")
 	if err != nil {
 		run.Machinery("%v", err)
 		return run.Finish()
 	}
 	defer os.RemoveAll(dir)
+	if e.Prepare != nil {
+		if err := e.Prepare(tier, dir); err != nil {
+			run.Machinery("prepare: %v", err)
+			return run.Finish()
+		}
+	}
 	exe, _ := os.Executable()
 	var wg sync.WaitGroup
 	outs := make([][]byte, n)
@@ -111,7 +118,7 @@ func runSharded(run *ev.Run, id, tier string, n int) int {
 			defer wg.Done()
 			cmd := exec.Command(exe, id, tier)
 			cmd.Env = append(os.Environ(), "VERIF_SHARD="+strconv.Itoa(k), "VERIF_SHARDS="+strconv.Itoa(n),
-				"VERIF_PARTIAL="+filepath.Join(dir, strconv.Itoa(k)+".json"))
+				"VERIF_PARTIAL="+filepath.Join(dir, strconv.Itoa(k)+".json"), "VERIF_SHARED_DIR="+dir)
 			outs[k], errs[k] = cmd.CombinedOutput()
 		}(k)
 	}
